@@ -1469,6 +1469,22 @@ class Normalizer:
                 for s_ in low:
                     out += self._stmt(s_, modname, cname, stack, state)
                 return out
+        if isinstance(st, ast.For) and isinstance(st.iter, ast.Call) and isinstance(st.iter.func, ast.Name) and st.iter.func.id == "map" \
+                and len(st.iter.args) == 2 and not st.iter.keywords and isinstance(st.target, ast.Name) \
+                and isinstance(st.iter.args[0], ast.Attribute) and isinstance(st.iter.args[0].value, ast.Name) and st.iter.args[0].value.id in ("str", "bytes") \
+                and isinstance(st.iter.args[1], ast.Call) and isinstance(st.iter.args[1].func, ast.Attribute) \
+                and st.iter.args[1].func.attr in ("split", "rsplit", "splitlines", "partition"):
+            # N29: for x in map(str.strip, s.split(",")): B   ->   for x in s.split(","): x = x.strip(); B
+            # (the pieces of a split are strings / bytes of the receiver's own type, for which T.m(x) is x.m())
+            meth = st.iter.args[0].attr
+            asg = ast.Assign(targets=[ast.Name(id=st.target.id, ctx=ast.Store())],
+                             value=ast.Call(func=ast.Attribute(value=ast.Name(id=st.target.id, ctx=ast.Load()), attr=meth, ctx=ast.Load()), args=[], keywords=[]),
+                             type_comment=None)
+            ast.copy_location(asg, st)
+            ast.fix_missing_locations(asg)
+            st.iter = st.iter.args[1]
+            st.body = [asg] + st.body
+            self.lowered.append((state["caller"], getattr(st, "lineno", 0), "map-method"))
         if isinstance(st, ast.For) and isinstance(st.iter, ast.Call) and isinstance(st.iter.func, ast.Attribute) and st.iter.func.attr == "items" \
                 and not st.iter.args and not st.iter.keywords and _side_effect_free(st.iter.func.value) \
                 and isinstance(st.target, (ast.Tuple, ast.List)) and len(st.target.elts) == 2 and all(isinstance(e, ast.Name) for e in st.target.elts):
